@@ -31,7 +31,7 @@ var panicForeignReviewed = map[string]string{
 	"(*cloner).property|error(Errorf)|default-of-typeswitch(interface{})":                       "dead by PROP-PAYLOAD: property.value is Value or propertyGetSet at every construction site",
 	"(*runtime).cmplEvaluateNodeExpression|string|":                                             "defensive: getIdentifierReference returns a non-nil reference on every path (it ends in a composite literal)",
 	"(*runtime).cmplEvaluateNodeObjectLiteral|string|default-of-switch(string:.kind)":           "dead by TAB-propkind: the parser writes only value/get/set into Property.Kind",
-	"(*runtime).cmplEvaluateNodeUnaryExpression|string|after-switch(token.Token:.operator)":     "dead by TAB-ops: every unary operator the parser emits has an arm",
+	"(*runtime).cmplEvaluateNodeUnaryExpression|string|after-switch(token.Token:.operator)":     "every unary operator the parser emits has an arm (TAB-ops); the arm of typeof falls through to this panic only for an operand of an internal kind (empty / result / reference), which statements never hand to expressions (LABEL-consume, EARLY-guards: no break or continue result escapes a function)",
 	"(*runtime).cmplEvaluateNodeStatement|error(Errorf)|default-of-switch(token.Token:.branch)": "dead by TAB-branch: the parser writes only BREAK/CONTINUE into BranchStatement.Token",
 	"(*runtime).calculateBinaryExpression|string|after-switch(token.Token:var)":                 "dead by TAB-ops",
 	"(*runtime).calculateComparison|string|default-of-switch(token.Token:var)":                  "dead by TAB-ops",
